@@ -424,9 +424,16 @@ func (st *c10State) runCallerOps(ci int, ops []Op, late bool) {
 					pending++
 				}
 			}
+			var prevDone *go9p.Req
+			freeDone := len(op.A) > 4 && op.a(4)%2 == 0 // completed requests are handed back with Tag.ReqFree, while others are outstanding
 			for ; pending > 0; pending-- {
 				rt.Yield(rt.SiteActor)
+				if prevDone != nil && freeDone {
+					tag.ReqFree(prevDone)
+					st.x.Probe("tag-request-freed-while-others-outstanding")
+				}
 				r := <-ch
+				prevDone = r
 				rt.Yield(rt.SiteActor)
 				var cl *c10Call
 				for _, k := range cls {
@@ -478,6 +485,9 @@ func (st *c10State) runCallerOps(ci int, ops []Op, late bool) {
 				cl.end(err, bad)
 			}
 			rt.Yield(rt.SiteActor)
+			if prevDone != nil && freeDone {
+				tag.ReqFree(prevDone)
+			}
 			clnt.TagFree(tag)
 			for k, f := range st.pipeFids {
 				if f == fid.Fid {
